@@ -541,7 +541,8 @@ func gen08(tier string, emit func(Case)) {
 // blockedAfter: a case normally takes milliseconds. One that has not returned after this long is looked at through the
 // goroutine dump: only a body that is *parked* on a lock, channel or wait group is reported (kind "blocked", a deadlock
 // that burns no fuel); a body that is still runnable is slow, not stuck, and the case is left undecided.
-const blockedAfter = 90 * time.Second
+// (once a process has seen one parked body, later cases wait 5 s only: the dump, not the clock, is the evidence)
+var blockedAfter = 90 * time.Second
 
 var parkedStates = []string{"semacquire", "sync.Mutex.Lock", "sync.RWMutex.Lock", "sync.RWMutex.RLock", "chan receive", "chan send", "select", "sync.WaitGroup.Wait", "sync.Cond.Wait"}
 
@@ -581,6 +582,7 @@ func guard(budget int64, f func()) (kind, site, msg string) {
 		head := firstLine(g)
 		for _, st := range parkedStates {
 			if strings.Contains(head, "["+st) {
+				defer func() { blockedAfter = 5 * time.Second }()
 				return "blocked", firstFalcoFrame(g), "the case is parked (" + strings.TrimSpace(head) + ") " + blockedAfter.String() + " after it started"
 			}
 		}
